@@ -4,7 +4,8 @@ mod hash_union;
 mod models;
 mod panic;
 
-use syn::{Data, DeriveInput, Meta};
+use quote::format_ident;
+use syn::{Data, DeriveInput, GenericParam, Ident, Meta};
 
 use super::TraitHandler;
 use crate::Trait;
@@ -31,4 +32,20 @@ impl TraitHandler for HashHandler {
             },
         }
     }
+}
+
+/// Create an identifier for the generic hasher parameter of `fn hash` which is different from every generic parameter of the type.
+#[inline]
+fn create_hasher_ident(ast: &DeriveInput) -> Ident {
+    let mut name = String::from("__H");
+
+    while ast.generics.params.iter().any(|param| match param {
+        GenericParam::Type(param) => param.ident == name,
+        GenericParam::Const(param) => param.ident == name,
+        GenericParam::Lifetime(_) => false,
+    }) {
+        name.push('_');
+    }
+
+    format_ident!("{}", name)
 }
